@@ -124,7 +124,7 @@ theorem exec_shrinks (v : Variant) (s : St) (t : Nat) (i : Instr) (rest : List I
   cases i
   case register | closeSwap | delByTag | loadDone | send | idleGo | srv => simp [special] at hb
   case cancelConts c r =>
-    simp only [exec]
+    simp only [exec, flushBody]
     refine shrinks_of s _ t ?_ (fun d => ?_) (fun u hu => ?_) (fun d => ?_)
     · rw [setProg_pending, updCmd_pending, (foldl_setCont2_eq _ _ _).2.1]
     · simp only [setProg_cmd, updCmd_cmd, (foldl_setCont2_eq _ _ _).1]
@@ -132,13 +132,13 @@ theorem exec_shrinks (v : Variant) (s : St) (t : Nat) (i : Instr) (rest : List I
     · rw [setProg_prog, if_neg hu, updCmd_prog, (foldl_setCont2_eq _ _ _).2.2]
     · rw [setProg_prog, if_pos rfl]; exact hrest d
   case cancelOrphans ks =>
-    simp only [exec]
+    simp only [exec, flushBody]
     refine shrinks_of s _ t ?_ (fun d => ?_) (fun u hu => ?_) (fun d => ?_)
     · rw [setProg_pending, (foldl_setCont_eq _ _).2.1]
     · rw [setProg_cmd, (foldl_setCont_eq _ _).1]; exact ⟨rfl, rfl⟩
     · rw [setProg_prog, if_neg hu, (foldl_setCont_eq _ _).2.2]
     · rw [setProg_prog, if_pos rfl]; exact hrest d
-  all_goals simp only [exec]
+  all_goals simp only [exec, flushBody]
   all_goals repeat' split
   all_goals
     first
@@ -253,7 +253,7 @@ theorem firstWithTag_mem (s : St) (tag : Nat) (l : List Nat) (c : Nat)
 
 theorem once_register {v : Variant} {s : St} (h : Once s) (t c : Nat) (rest : List Instr)
     (hs : s.prog t = .register c :: rest) : Once (exec v s t (.register c) rest) := by
-  simp only [exec]
+  simp only [exec, flushBody]
   split
   · exact h
   · rename_i hr
@@ -323,7 +323,7 @@ theorem once_register {v : Variant} {s : St} (h : Once s) (t c : Nat) (rest : Li
 
 theorem once_loadDone {v : Variant} {s : St} (h : Once s) (t c : Nat) (r : Res) (rest : List Instr)
     (hs : s.prog t = .loadDone c r :: rest) : Once (exec v s t (.loadDone c r) rest) := by
-  simp only [exec]
+  simp only [exec, flushBody]
   refine once_of_shrinks h (shrinks_of s _ t rfl (fun _ => ⟨rfl, rfl⟩) (fun u hu => by simp [setProg_prog, hu]) (fun d => ?_))
   rw [setProg_prog, if_pos rfl, hs, toks_cons, toks_cons]
   simp only [isTok]
@@ -331,7 +331,7 @@ theorem once_loadDone {v : Variant} {s : St} (h : Once s) (t c : Nat) (r : Res) 
 
 theorem once_send {v : Variant} {s : St} (h : Once s) (t c : Nat) (r : Res) (init : Bool) (rest : List Instr)
     (hs : s.prog t = .send c r init :: rest) : Once (exec v s t (.send c r init) rest) := by
-  simp only [exec]
+  simp only [exec, flushBody]
   split
   · exact h
   · split
@@ -400,7 +400,7 @@ theorem once_closeSwap {v : Variant} {s : St} (h : Once s) (t : Nat) (rest : Lis
     (hs : s.prog t = .closeSwap :: rest) : Once (exec v s t .closeSwap rest) := by
   have hrest : ∀ d, toks d rest ≤ toks d (s.prog t) := by
     intro d; rw [hs, toks_cons]; exact Nat.le_add_right _ _
-  simp only [exec]
+  simp only [exec, flushBody]
   split
   · refine once_take h t s.pending h.nodup (fun _ hd => hd) List.nodup_nil (fun d hd => by cases hd)
       (fun _ => rfl) (fun _ => rfl) (fun u hu => by simp [setProg_prog, hu]) (fun d => ⟨toks d rest, hrest d, ?_⟩)
@@ -415,7 +415,7 @@ theorem once_delByTag {v : Variant} {s : St} (h : Once s) (t tag : Nat) (rep : R
     Once (exec v s t (.delByTag tag rep caps) rest) := by
   have hrest : ∀ d, toks d rest ≤ toks d (s.prog t) := by
     intro d; rw [hs, toks_cons]; exact Nat.le_add_right _ _
-  simp only [exec]
+  simp only [exec, flushBody]
   split
   · refine once_of_shrinks h (shrinks_of s _ t rfl (fun _ => ⟨rfl, rfl⟩) (fun u hu => by simp [setProg_prog, hu]) (fun d => ?_))
     rw [setProg_prog, if_pos rfl]
@@ -438,7 +438,7 @@ theorem once_delByTag {v : Variant} {s : St} (h : Once s) (t tag : Nat) (rep : R
 
 theorem once_idleGo {v : Variant} {s : St} (h : Once s) (t c : Nat) (rest : List Instr)
     (hs : s.prog t = .idleGo c :: rest) : Once (exec v s t (.idleGo c) rest) := by
-  simp only [exec]
+  simp only [exec, flushBody]
   split
   · exact h
   refine once_of_shrinks h ⟨rfl, fun _ => rfl, fun _ => rfl, fun d u => ?_⟩
@@ -457,7 +457,7 @@ theorem once_srv {v : Variant} {s : St} (h : Once s) (t : Nat) (a : SrvAct) (res
     (hs : s.prog t = .srv a :: rest) : Once (exec v s t (.srv a) rest) := by
   have hrest : ∀ d, toks d rest ≤ toks d (s.prog t) := by
     intro d; rw [hs, toks_cons]; exact Nat.le_add_right _ _
-  simp only [exec]
+  simp only [exec, flushBody]
   split
   · exact h
   · cases a <;> simp only [execSrv]
